@@ -5,6 +5,7 @@ package webserver
 
 import (
 	"crypto/sha256"
+	"encoding/base64"
 	"encoding/hex"
 	"encoding/json"
 	"fmt"
@@ -18,6 +19,7 @@ import (
 	"testing"
 	"time"
 
+	"github.com/golang-jwt/jwt/v5"
 	"golang.org/x/crypto/pbkdf2"
 	"pgregory.net/rapid"
 
@@ -31,6 +33,8 @@ type c17World struct {
 	g1, g2   string
 	sub      string
 	legacy   string   // a group whose definition is in the legacy format
+	sibling  string   // a group whose name merely starts with g1's (no slash) and that trusts the same key
+	jwtAdm1  string   // a signed admin token for g1 that also covers g1's subgroups
 	secrets  []string // strings that must never appear in any response
 	tokAdm1  string   // admin token scoped to g1
 	tokAdm2  string   // admin token scoped to g2
@@ -115,6 +119,25 @@ func newC17World() *c17World {
 	}
 	w.tokAdm1 = mk("adm1-", w.g1, false, []string{"admin"}, time.Hour)
 	w.tokAdm2 = mk("adm2-", w.g2, false, []string{"admin"}, time.Hour)
+	// a sibling whose name has g1's as a proper string prefix, trusting g1's key; and a signed token for g1 and its subgroups
+	w.sibling = w.g1 + "x"
+	sd := c17Desc(tag+"a", &w.secrets)
+	rig.writeGroup(w.sibling, sd)
+	{
+		hk := "a2V5a2V5a2V5a2V5a2V5a2V5a2V5a2V5a2V5" + tag + "a"
+		hk = (hk + "AAAAAAAAAAAAAAAAAAAAAAAAAAAAAAAAAAAAAAAAAAA")[:43]
+		key, err := base64.RawURLEncoding.DecodeString(hk)
+		if err != nil {
+			panic("VERIF-HARNESS-ERROR: " + err.Error())
+		}
+		tok := jwt.NewWithClaims(jwt.SigningMethodHS256, jwt.MapClaims{"sub": "jwtadmin", "aud": "https://galene.example.org/group/" + w.g1 + "/",
+			"permissions": []string{"admin"}, "include-subgroups": true, "exp": time.Now().Add(time.Hour).Unix(), "iat": time.Now().Add(-time.Minute).Unix()})
+		tok.Header["kid"] = "k" + tag + "a"
+		w.jwtAdm1, err = tok.SignedString(key)
+		if err != nil {
+			panic("VERIF-HARNESS-ERROR: " + err.Error())
+		}
+	}
 	w.tokNoAdm = mk("noadm-", w.g1, false, []string{"op", "present"}, time.Hour)
 	w.tokExp = mk("exp-", w.g1, false, []string{"admin"}, -time.Hour)
 	w.tokRoot = mk("root-", "", true, []string{"admin"}, time.Hour)
@@ -128,7 +151,7 @@ func (w *c17World) hold() {
 	if !w.held {
 		return
 	}
-	for _, g := range []string{w.g1, w.g2, w.sub, w.legacy} {
+	for _, g := range []string{w.g1, w.g2, w.sub, w.legacy, w.sibling} {
 		if group.Get(g) == nil {
 			if _, err := os.Stat(filepath.Join(w.rig.groups, filepath.FromSlash(g)+".json")); err == nil {
 				group.Add(g, nil)
@@ -138,10 +161,10 @@ func (w *c17World) hold() {
 }
 
 func (w *c17World) cleanup() {
-	for _, g := range []string{w.sub, w.g1, w.g2, w.legacy} {
+	for _, g := range []string{w.sub, w.g1, w.g2, w.legacy, w.sibling} {
 		group.Delete(g)
 	}
-	for _, g := range []string{w.sub, w.g1, w.g2, w.legacy} {
+	for _, g := range []string{w.sub, w.g1, w.g2, w.legacy, w.sibling} {
 		os.Remove(filepath.Join(w.rig.groups, filepath.FromSlash(g)+".json"))
 	}
 	os.Remove(filepath.Join(w.rig.groups, filepath.FromSlash(w.g1)))
@@ -168,7 +191,7 @@ func (w *c17World) creds() []c17Cred {
 	}
 	t1 := tagOf(w.g1) + "a"
 	t2 := tagOf(w.g2) + "b"
-	both := map[string]bool{w.g1: true, w.g2: true, w.sub: true, w.legacy: true}
+	both := map[string]bool{w.g1: true, w.g2: true, w.sub: true, w.legacy: true, w.sibling: true}
 	return []c17Cred{
 		{name: "none"},
 		{name: "malformed-basic", hdr: "Basic !!!notbase64"},
@@ -183,9 +206,12 @@ func (w *c17World) creds() []c17Cred {
 		{name: "empty-users-password-other-name", hdr: basic("zed", "emptypw-MARKSECRET"+t1), pw: "emptypw-MARKSECRET" + t1},
 		{name: "admins-password-other-name", hdr: basic("bob", "gadminpw-MARKSECRET"+t1), pw: "gadminpw-MARKSECRET" + t1},
 		{name: "other-groups-admin", hdr: basic("gadmin", "gadminpw-MARKSECRET"+t2), groups: map[string]bool{w.g2: true}, pw: "gadminpw-MARKSECRET" + t2},
-		{name: "group-admin", hdr: basic("gadmin", "gadminpw-MARKSECRET"+t1), groups: map[string]bool{w.g1: true}, pw: "gadminpw-MARKSECRET" + t1},
+		{name: "group-admin", hdr: basic("gadmin", "gadminpw-MARKSECRET"+t1), groups: map[string]bool{w.g1: true, w.sibling: true}, pw: "gadminpw-MARKSECRET" + t1}, // (the sibling is defined like g1)
 		{name: "global-admin", hdr: basic("root", "rootpw-MARKSECRETroot"), global: true, groups: both, pw: "rootpw-MARKSECRETroot"},
 		{name: "admin-token-in-scope", hdr: "Bearer " + w.tokAdm1, groups: map[string]bool{w.g1: true}},
+		// a signed token for g1 and its subgroups: good for g1 (the subgroup trusts another key), not for the group whose name
+		// merely starts like g1's
+		{name: "signed-admin-token-with-subgroups", hdr: "Bearer " + w.jwtAdm1, groups: map[string]bool{w.g1: true}},
 		{name: "admin-token-other-group", hdr: "Bearer " + w.tokAdm2, groups: map[string]bool{w.g2: true}},
 		{name: "token-without-admin", hdr: "Bearer " + w.tokNoAdm},
 		{name: "expired-admin-token", hdr: "Bearer " + w.tokExp},
@@ -249,7 +275,7 @@ func TestVerif_C17_AuthMatrix(t *testing.T) {
 		nreq := rapid.IntRange(4, 20).Draw(t, "nreq")
 		for i := 0; i < nreq; i++ {
 			w.hold()
-			g := rapid.SampledFrom([]string{w.g1, w.g1, w.g2, w.sub, w.legacy}).Draw(t, "group")
+			g := rapid.SampledFrom([]string{w.g1, w.g1, w.g2, w.sub, w.legacy, w.sibling, w.sibling}).Draw(t, "group")
 			routes := w.routes(g)
 			rt := routes[rapid.IntRange(0, len(routes)-1).Draw(t, "route")]
 			method := rapid.SampledFrom([]string{"GET", "GET", "HEAD", "PUT", "PUT", "POST", "DELETE", "DELETE", "OPTIONS", "PATCH", "BOGUS"}).Draw(t, "method")
